@@ -87,4 +87,486 @@ theorem decBytes_encBytes (b rest : List UInt8) (hb : b.length < 2 ^ 63) :
   simp only [h1, h2, if_false]
   simp
 
+/-! ### decoding an encoding -/
+
+mutual
+  /-- every byte string and dict key is shorter than 2^63 (`Py_ssize_t`: CPython cannot hold a longer
+  one; `f.read(n)` raises OverflowError for `n ≥ 2^63`) -/
+  def Fits : BVal → Prop
+    | .int _ => True
+    | .bytes b => b.length < 2 ^ 63
+    | .list l => FitsList l
+    | .dict d => FitsDict d
+  def FitsList : BList → Prop
+    | .nil => True
+    | .cons v t => Fits v ∧ FitsList t
+  def FitsDict : BDict → Prop
+    | .nil => True
+    | .cons k v t => k.length < 2 ^ 63 ∧ Fits v ∧ FitsDict t
+end
+
+mutual
+  /-- fuel that `decF` needs on `enc v` -/
+  def cost : BVal → Nat
+    | .int _ => 1
+    | .bytes _ => 1
+    | .list l => 1 + costList l
+    | .dict d => 1 + costDict d
+  def costList : BList → Nat
+    | .nil => 2
+    | .cons v t => 1 + cost v + costList t
+  def costDict : BDict → Nat
+    | .nil => 2
+    | .cons _ v t => 1 + cost v + costDict t
+end
+
+theorem ofB_ne_none (v : BVal) : ofB v ≠ .none := by cases v <;> simp [ofB]
+
+theorem decF_bytes (last : Option UInt8) (fuel : Nat) (b rest : List UInt8) (hb : b.length < 2 ^ 63) :
+    decF last (fuel + 1) (encBytes b ++ rest) = .ok (.bytes b, rest) := by
+  have hdec := decBytes_encBytes b rest hb
+  obtain ⟨c, t, hct, hd⟩ := natDigits_head b.length
+  have hcons : encBytes b ++ rest = c :: (t ++ 58 :: b ++ rest) := by simp [encBytes, hct]
+  rw [hcons] at hdec ⊢
+  have h1 : c ≠ 105 := by intro e; subst e; revert hd; unfold IsDigit; decide
+  have h2 : c ≠ 108 := by intro e; subst e; revert hd; unfold IsDigit; decide
+  have h3 : c ≠ 100 := by intro e; subst e; revert hd; unfold IsDigit; decide
+  simp only [decF, h1, h2, h3, if_false, (isDigitB_iff c).mpr hd, if_true, hdec]
+
+theorem decF_end (last : Option UInt8) (fuel : Nat) (rest : List UInt8) :
+    decF last (fuel + 1) (101 :: rest) = .ok (.none, rest) := by
+  have h1 : (101 : UInt8) ≠ 105 := by decide
+  have h2 : (101 : UInt8) ≠ 108 := by decide
+  have h3 : (101 : UInt8) ≠ 100 := by decide
+  have h4 : isDigitB 101 = false := by decide
+  simp [decF, h1, h2, h3, h4]
+
+mutual
+  theorem decF_enc (last : Option UInt8) : ∀ (v : BVal) (fuel : Nat) (rest : List UInt8), Fits v → cost v ≤ fuel →
+      decF last fuel (enc v ++ rest) = .ok (ofB v, rest)
+    | .int z, fuel, rest, _, hf => by
+      obtain ⟨f, rfl⟩ : ∃ f, fuel = f + 1 := ⟨fuel - 1, by simp [cost] at hf; omega⟩
+      have hr := readUntil_append 101 (intDigits z) rest (intDigits_ne_e z)
+      simp [enc, decF, hr, pyInt_intDigits, ofB]
+    | .bytes b, fuel, rest, hfit, hf => by
+      obtain ⟨f, rfl⟩ : ∃ f, fuel = f + 1 := ⟨fuel - 1, by simp [cost] at hf; omega⟩
+      simp only [Fits] at hfit
+      simp only [enc, ofB]
+      exact decF_bytes last f b rest hfit
+    | .list l, fuel, rest, hfit, hf => by
+      obtain ⟨f, rfl⟩ : ∃ f, fuel = f + 1 := ⟨fuel - 1, by simp [cost] at hf; omega⟩
+      simp only [Fits] at hfit
+      simp only [cost] at hf
+      have ih := decListF_enc last l f rest hfit (by omega)
+      have h1 : (108 : UInt8) ≠ 105 := by decide
+      simp [enc, decF, h1, ih, ofB]
+    | .dict d, fuel, rest, hfit, hf => by
+      obtain ⟨f, rfl⟩ : ∃ f, fuel = f + 1 := ⟨fuel - 1, by simp [cost] at hf; omega⟩
+      simp only [Fits] at hfit
+      simp only [cost] at hf
+      have ih := decDictF_enc last d f rest hfit (by omega)
+      have h1 : (100 : UInt8) ≠ 105 := by decide
+      have h2 : (100 : UInt8) ≠ 108 := by decide
+      simp [enc, decF, h1, h2, ih, ofB]
+  theorem decListF_enc (last : Option UInt8) : ∀ (l : BList) (fuel : Nat) (rest : List UInt8), FitsList l → costList l ≤ fuel →
+      decListF last fuel (encList l ++ rest) = .ok (ofBList l, rest)
+    | .nil, fuel, rest, _, hf => by
+      obtain ⟨f, rfl⟩ : ∃ f, fuel = f + 2 := ⟨fuel - 2, by simp [costList] at hf; omega⟩
+      simp [encList, decListF, decF_end, ofBList]
+    | .cons v t, fuel, rest, hfit, hf => by
+      obtain ⟨f, rfl⟩ : ∃ f, fuel = f + 1 := ⟨fuel - 1, by simp [costList] at hf; omega⟩
+      simp only [FitsList] at hfit
+      simp only [costList] at hf
+      have ih1 := decF_enc last v f (encList t ++ rest) hfit.1 (by omega)
+      have ih2 := decListF_enc last t f rest hfit.2 (by omega)
+      simp only [encList, List.append_assoc, decListF, ih1]
+      have hn := ofB_ne_none v
+      cases hv : ofB v with
+      | none => exact absurd hv hn
+      | _ => simp [ih2, ofBList, hv]
+  theorem decDictF_enc (last : Option UInt8) : ∀ (d : BDict) (fuel : Nat) (rest : List UInt8), FitsDict d → costDict d ≤ fuel →
+      decDictF last fuel (encDict d ++ rest) = .ok (ofBDict d, rest)
+    | .nil, fuel, rest, _, hf => by
+      obtain ⟨f, rfl⟩ : ∃ f, fuel = f + 2 := ⟨fuel - 2, by simp [costDict] at hf; omega⟩
+      simp [encDict, decDictF, decF_end, ofBDict]
+    | .cons k v t, fuel, rest, hfit, hf => by
+      obtain ⟨f, rfl⟩ : ∃ f, fuel = f + 2 := ⟨fuel - 2, by simp [costDict] at hf; cases v <;> simp [cost] at hf <;> omega⟩
+      simp only [FitsDict] at hfit
+      simp only [costDict] at hf
+      have ih0 := decF_bytes last f k (enc v ++ (encDict t ++ rest)) hfit.1
+      have ih1 := decF_enc last v (f + 1) (encDict t ++ rest) hfit.2.1 (by omega)
+      have ih2 := decDictF_enc last t (f + 1) rest hfit.2.2 (by omega)
+      simp only [encDict, List.append_assoc]
+      rw [decDictF]
+      simp only [ih0, ih1, ih2, ofBDict]
+end
+
+theorem natDigits_length_pos (n : Nat) : 0 < (natDigits n).length := by
+  have := natDigits_ne_nil n
+  cases h : natDigits n with
+  | nil => exact absurd h this
+  | cons _ _ => simp
+
+mutual
+  theorem cost_le : ∀ v : BVal, cost v + 1 ≤ 2 * (enc v).length
+    | .int z => by simp [cost, enc]; omega
+    | .bytes b => by
+      have := natDigits_length_pos b.length
+      simp [cost, enc, encBytes]; omega
+    | .list l => by have := costList_le l; simp [cost, enc]; omega
+    | .dict d => by have := costDict_le d; simp [cost, enc]; omega
+  theorem costList_le : ∀ l : BList, costList l ≤ 2 * (encList l).length
+    | .nil => by simp [costList, encList]
+    | .cons v t => by
+      have := cost_le v; have := costList_le t
+      simp [costList, encList]; omega
+  theorem costDict_le : ∀ d : BDict, costDict d ≤ 2 * (encDict d).length
+    | .nil => by simp [costDict, encDict]
+    | .cons k v t => by
+      have := cost_le v; have := costDict_le t
+      simp [costDict, encDict]; omega
+end
+
+theorem decode_enc (v : BVal) (rest : List UInt8) (h : Fits v) : decode (enc v ++ rest) = .ok (ofB v, rest) := by
+  unfold decode
+  apply decF_enc _ v _ rest h
+  have := cost_le v
+  simp; omega
+
+/-! ### `decode` never runs out of fuel -/
+
+theorem readUntil_length (e : UInt8) : ∀ (bs a r : List UInt8), readUntil e bs = some (a, r) → r.length < bs.length
+  | [], a, r, h => by simp [readUntil] at h
+  | c :: t, a, r, h => by
+    simp only [readUntil] at h
+    split at h
+    · simp at h; simp [h.2]
+    · cases hr : readUntil e t with
+      | none => simp [hr] at h
+      | some p =>
+        obtain ⟨a', r'⟩ := p
+        simp [hr] at h
+        have := readUntil_length e t a' r' hr
+        simp [← h.2]; omega
+
+/-- the result of one decoding step: never out of fuel, never longer, a value costs at least a byte -/
+def Good (bs : List UInt8) (r : Except DErr (DVal × List UInt8)) : Prop :=
+  r ≠ .error .fuel ∧ ∀ v rest, r = .ok (v, rest) → rest.length ≤ bs.length ∧ (v ≠ .none → rest.length < bs.length)
+
+theorem decBytes_good (bs : List UInt8) : Good bs (decBytes bs) := by
+  unfold Good decBytes
+  cases hr : readUntil 58 bs with
+  | none => simp
+  | some p =>
+    obtain ⟨ds, r⟩ := p
+    have hl := readUntil_length 58 bs ds r hr
+    simp only []
+    cases pyInt ds with
+    | none => simp
+    | some z =>
+      simp only []
+      split
+      · simp
+      · split
+        · simp
+        · split
+          · simp
+          · refine ⟨by simp, ?_⟩
+            intro v rest h
+            simp at h
+            rw [← h.2]
+            simp; omega
+
+def GoodL {α : Type} (bs : List UInt8) (r : Except DErr (α × List UInt8)) : Prop :=
+  r ≠ .error .fuel ∧ ∀ l rest, r = .ok (l, rest) → rest.length ≤ bs.length
+
+theorem dec_fuel (last : Option UInt8) : ∀ fuel : Nat,
+    (∀ bs, 2 * bs.length + 2 ≤ fuel → Good bs (decF last fuel bs)) ∧
+    (∀ bs, 2 * bs.length + 3 ≤ fuel → GoodL bs (decListF last fuel bs)) ∧
+    (∀ bs, 2 * bs.length + 3 ≤ fuel → GoodL bs (decDictF last fuel bs))
+  | 0 => ⟨fun _ h => by omega, fun _ h => by omega, fun _ h => by omega⟩
+  | f + 1 => by
+    obtain ⟨ihV, ihL, ihD⟩ := dec_fuel last f
+    refine ⟨?_, ?_, ?_⟩
+    · intro bs hf
+      cases bs with
+      | nil =>
+        simp only [decF]
+        split <;> simp [Good]
+      | cons c bs =>
+        simp only [decF]
+        split
+        · -- int
+          cases hr : readUntil 101 bs with
+          | none => simp [Good]
+          | some p =>
+            obtain ⟨ds, r⟩ := p
+            have hl := readUntil_length 101 bs ds r hr
+            simp only []
+            cases pyInt ds with
+            | none => simp [Good]
+            | some z =>
+              refine ⟨by simp, ?_⟩
+              intro v rest h
+              simp at h
+              rw [← h.2]; simp; omega
+        · split
+          · have := ihL bs (by simp at hf; omega)
+            cases hl : decListF last f bs with
+            | error e =>
+              rw [hl] at this
+              refine ⟨?_, by simp⟩
+              intro h; simp at h; subst h; exact this.1 rfl
+            | ok p =>
+              obtain ⟨l, r⟩ := p
+              rw [hl] at this
+              refine ⟨by simp, ?_⟩
+              intro v rest h
+              simp at h
+              have := this.2 l r rfl
+              rw [← h.2]; simp; omega
+          · split
+            · have := ihD bs (by simp at hf; omega)
+              cases hl : decDictF last f bs with
+              | error e =>
+                rw [hl] at this
+                refine ⟨?_, by simp⟩
+                intro h; simp at h; subst h; exact this.1 rfl
+              | ok p =>
+                obtain ⟨l, r⟩ := p
+                rw [hl] at this
+                refine ⟨by simp, ?_⟩
+                intro v rest h
+                simp at h
+                have := this.2 l r rfl
+                rw [← h.2]; simp; omega
+            · split
+              · exact decBytes_good (c :: bs)
+              · split
+                · refine ⟨by simp, ?_⟩
+                  intro v rest h
+                  simp at h
+                  rw [← h.2]; simp [← h.1]
+                · simp [Good]
+    · intro bs hf
+      simp only [decListF]
+      have hV := ihV bs (by omega)
+      cases hd : decF last f bs with
+      | error e =>
+        rw [hd] at hV
+        refine ⟨?_, by simp⟩
+        intro h; simp at h; subst h; exact hV.1 rfl
+      | ok p =>
+        obtain ⟨v, r⟩ := p
+        rw [hd] at hV
+        have hv := hV.2 v r rfl
+        cases v with
+        | none => simp [GoodL]; exact hv.1
+        | int z =>
+          have hlt := hv.2 (by simp)
+          have hL := ihL r (by omega)
+          simp only []
+          cases hl : decListF last f r with
+          | error e =>
+            rw [hl] at hL
+            refine ⟨?_, by simp⟩
+            intro h; simp at h; subst h; exact hL.1 rfl
+          | ok q =>
+            obtain ⟨t, r'⟩ := q
+            rw [hl] at hL
+            have := hL.2 t r' rfl
+            refine ⟨by simp, ?_⟩
+            intro l rest h
+            simp at h
+            rw [← h.2]; omega
+        | bytes z =>
+          have hlt := hv.2 (by simp)
+          have hL := ihL r (by omega)
+          simp only []
+          cases hl : decListF last f r with
+          | error e =>
+            rw [hl] at hL
+            refine ⟨?_, by simp⟩
+            intro h; simp at h; subst h; exact hL.1 rfl
+          | ok q =>
+            obtain ⟨t, r'⟩ := q
+            rw [hl] at hL
+            have := hL.2 t r' rfl
+            refine ⟨by simp, ?_⟩
+            intro l rest h
+            simp at h
+            rw [← h.2]; omega
+        | list z =>
+          have hlt := hv.2 (by simp)
+          have hL := ihL r (by omega)
+          simp only []
+          cases hl : decListF last f r with
+          | error e =>
+            rw [hl] at hL
+            refine ⟨?_, by simp⟩
+            intro h; simp at h; subst h; exact hL.1 rfl
+          | ok q =>
+            obtain ⟨t, r'⟩ := q
+            rw [hl] at hL
+            have := hL.2 t r' rfl
+            refine ⟨by simp, ?_⟩
+            intro l rest h
+            simp at h
+            rw [← h.2]; omega
+        | dict z =>
+          have hlt := hv.2 (by simp)
+          have hL := ihL r (by omega)
+          simp only []
+          cases hl : decListF last f r with
+          | error e =>
+            rw [hl] at hL
+            refine ⟨?_, by simp⟩
+            intro h; simp at h; subst h; exact hL.1 rfl
+          | ok q =>
+            obtain ⟨t, r'⟩ := q
+            rw [hl] at hL
+            have := hL.2 t r' rfl
+            refine ⟨by simp, ?_⟩
+            intro l rest h
+            simp at h
+            rw [← h.2]; omega
+    · intro bs hf
+      simp only [decDictF]
+      have hV := ihV bs (by omega)
+      cases hd : decF last f bs with
+      | error e =>
+        rw [hd] at hV
+        refine ⟨?_, by simp⟩
+        intro h; simp at h; subst h; exact hV.1 rfl
+      | ok p =>
+        obtain ⟨v, r⟩ := p
+        rw [hd] at hV
+        have hv := hV.2 v r rfl
+        cases v with
+        | none => simp [GoodL]; exact hv.1
+        | int z => simp [GoodL]
+        | list z => simp [GoodL]
+        | dict z => simp [GoodL]
+        | bytes k =>
+          have hlt := hv.2 (by simp)
+          have hV2 := ihV r (by omega)
+          simp only []
+          cases hd2 : decF last f r with
+          | error e =>
+            rw [hd2] at hV2
+            refine ⟨?_, by simp⟩
+            intro h; simp at h; subst h; exact hV2.1 rfl
+          | ok q =>
+            obtain ⟨w, r2⟩ := q
+            rw [hd2] at hV2
+            have hw := (hV2.2 w r2 rfl).1
+            have hD := ihD r2 (by omega)
+            simp only []
+            cases hl : decDictF last f r2 with
+            | error e =>
+              rw [hl] at hD
+              refine ⟨?_, by simp⟩
+              intro h; simp at h; subst h; exact hD.1 rfl
+            | ok q =>
+              obtain ⟨t, r'⟩ := q
+              rw [hl] at hD
+              have := hD.2 t r' rfl
+              refine ⟨by simp, ?_⟩
+              intro l rest h
+              simp at h
+              rw [← h.2]; omega
+
+theorem decode_ne_fuel (data : List UInt8) : decode data ≠ .error .fuel :=
+  ((dec_fuel data.getLast? (2 * data.length + 2)).1 data (Nat.le_refl _)).1
+
+/-! ### the Python-dict view of a decoded dict; uniqueness of the sorted form -/
+
+theorem dHasKey_ofBDict (k : List UInt8) : ∀ t : BDict, dHasKey k (ofBDict t) = true ↔ k ∈ BDict.keys t
+  | .nil => by simp [ofBDict, dHasKey, BDict.keys]
+  | .cons k' v t => by simp [ofBDict, dHasKey, BDict.keys, dHasKey_ofBDict k t]
+
+theorem dInsert_lt (k : List UInt8) (v : DVal) : ∀ t : BDict, (∀ k' ∈ BDict.keys t, bytesLt k k' = true) →
+    dInsert k v (ofBDict t) = .cons k v (ofBDict t)
+  | .nil, _ => by simp [ofBDict, dInsert]
+  | .cons k' v' t, h => by simp [ofBDict, dInsert, h k' (by simp [BDict.keys])]
+
+mutual
+  theorem canonD_ofB : ∀ v : BVal, WF v → canonD (ofB v) = ofB v
+    | .int _, _ => by simp [ofB, canonD]
+    | .bytes _, _ => by simp [ofB, canonD]
+    | .list l, h => by simp only [WF] at h; simp [ofB, canonD, canonDList_ofB l h]
+    | .dict d, h => by simp only [WF] at h; simp [ofB, canonD, canonDDict_ofB d h]
+  theorem canonDList_ofB : ∀ l : BList, WFList l → canonDList (ofBList l) = ofBList l
+    | .nil, _ => by simp [ofBList, canonDList]
+    | .cons v t, h => by
+      simp only [WFList] at h
+      simp [ofBList, canonDList, canonD_ofB v h.1, canonDList_ofB t h.2]
+  theorem canonDDict_ofB : ∀ d : BDict, WFDict d → canonDDict (ofBDict d) = ofBDict d
+    | .nil, _ => by simp [ofBDict, canonDDict]
+    | .cons k v t, h => by
+      simp only [WFDict] at h
+      have hk : dHasKey k (ofBDict t) = false := by
+        cases hh : dHasKey k (ofBDict t) with
+        | false => rfl
+        | true =>
+          have := h.2.1 k ((dHasKey_ofBDict k t).mp hh)
+          rw [bytesLt_irrefl] at this; cases this
+      simp [ofBDict, canonDDict, canonDDict_ofB t h.2.2, canonD_ofB v h.1, hk, dInsert_lt k (ofB v) t h.2.1]
+end
+
+theorem items_key_mem : ∀ (d : BDict) (p : List UInt8 × BVal), p ∈ BDict.items d → p.1 ∈ BDict.keys d
+  | .nil, p, hp => by simp [BDict.items] at hp
+  | .cons k v t, p, hp => by
+    simp only [BDict.items, List.mem_cons] at hp
+    rcases hp with rfl | hp
+    · simp [BDict.keys]
+    · simp [BDict.keys, items_key_mem t p hp]
+
+/-- two key-sorted dicts with the same items are the same dict (the sorted form is unique) -/
+theorem wfDict_ext : ∀ (a b : BDict), WFDict a → WFDict b →
+    (∀ p, p ∈ BDict.items a ↔ p ∈ BDict.items b) → a = b
+  | .nil, .nil, _, _, _ => rfl
+  | .nil, .cons k v t, _, _, h => by have := (h (k, v)).mpr (by simp [BDict.items]); simp [BDict.items] at this
+  | .cons k v t, .nil, _, _, h => by have := (h (k, v)).mp (by simp [BDict.items]); simp [BDict.items] at this
+  | .cons k1 v1 t1, .cons k2 v2 t2, ha, hb, h => by
+    simp only [WFDict] at ha hb
+    have keyOf := items_key_mem
+    have h1 := (h (k1, v1)).mp (by simp [BDict.items])
+    have h2 := (h (k2, v2)).mpr (by simp [BDict.items])
+    simp only [BDict.items, List.mem_cons, Prod.mk.injEq] at h1 h2
+    have hk : k1 = k2 := by
+      rcases h1 with h1 | h1
+      · exact h1.1
+      · rcases h2 with h2 | h2
+        · exact h2.1.symm
+        · have l1 := hb.2.1 k1 (keyOf t2 _ h1)
+          have l2 := ha.2.1 k2 (keyOf t1 _ h2)
+          rw [bytesLt_asymm l1] at l2; cases l2
+    subst hk
+    have hv : v1 = v2 := by
+      rcases h1 with h1 | h1
+      · exact h1.2
+      · have l1 := hb.2.1 k1 (keyOf t2 _ h1)
+        rw [bytesLt_irrefl] at l1; cases l1
+    subst hv
+    have ht : t1 = t2 := by
+      apply wfDict_ext t1 t2 ha.2.2 hb.2.2
+      intro p
+      constructor
+      · intro hp
+        have := (h p).mp (by simp [BDict.items, hp])
+        simp only [BDict.items, List.mem_cons] at this
+        rcases this with rfl | this
+        · have l1 := ha.2.1 _ (keyOf t1 _ hp)
+          rw [bytesLt_irrefl] at l1; cases l1
+        · exact this
+      · intro hp
+        have := (h p).mpr (by simp [BDict.items, hp])
+        simp only [BDict.items, List.mem_cons] at this
+        rcases this with rfl | this
+        · have l1 := hb.2.1 _ (keyOf t2 _ hp)
+          rw [bytesLt_irrefl] at l1; cases l1
+        · exact this
+    rw [ht]
+
 end RedunModel.BStruct
